@@ -1029,7 +1029,7 @@ func layoutCorpus() []*vh.Item {
 	// every one also with an indefinite-length / wide outer header
 	n := len(blocks)
 	for i := 0; i < n; i++ {
-		if blocks[i].K == vh.KArr {
+		if blocks[i].K == vh.KArr && i%3 == 0 {
 			c := blocks[i].Clone()
 			if i%2 == 0 {
 				c.F = vh.Findef
